@@ -131,4 +131,5 @@ def ser_reg(v):
     if k == 'OG':
         return [8, 0] if v[1] is None else [8, 1] + list(v[1])
     if k == 'P': return [9]
+    if k == 'X': return [11]
     return [10]
